@@ -91,3 +91,21 @@ contract("AddingVisitor.visitFromImport", source=M + "AddingVisitor.visitFromImp
              "forall(lambda k: implies(0 <= k and k < i, self.import_info.names_and_aliases[k] in new_pairs))",
              "import_stmt.import_info == import_info"]}},
          note="the names asked for are appended to the names already imported, none twice, none lost")
+
+# ---- which file a from-import names: FromImport.get_imported_resource ----------------------------------------------------------------------
+I = "rope.refactor.importutils.importinfo:"
+record("Folder", fields={})
+record("ImportContext", fields={"project": "Project", "folder": "Folder"})
+record("ResourceX", fields={})
+specfun("abs_module", ["Project", "Str", "Folder"], "Opt[ResourceX]", note="project.find_module(name, folder=folder): absolute module search (source folders, then the folder)")
+specfun("rel_module", ["Project", "Str", "Folder", "Int"], "Opt[ResourceX]", note="project.find_relative_module(name, folder, level): resolved from the importing package only")
+contract("Project.find_module", abstract=True, pure=True, heap_independent=True, params={"self": "Project", "modname": "Str", "folder": "Folder"}, returns="Opt[ResourceX]",
+         ensures=["result == abs_module(self, modname, folder)"])
+contract("Project.find_relative_module", abstract=True, pure=True, heap_independent=True, params={"self": "Project", "modname": "Str", "folder": "Folder", "level": "Int"},
+         returns="Opt[ResourceX]", ensures=["result == rel_module(self, modname, folder, level)"])
+contract("FromImport.get_imported_resource", source=I + "FromImport.get_imported_resource", params={"self": "FromImport", "context": "ImportContext"},
+         returns="Opt[ResourceX]", modifies=[], raises={},
+         ensures=["implies(self.level == 0, result == abs_module(context.project, self.module_name, context.folder))",
+                  # an explicit relative import is resolved from its own package and never through the global module search
+                  "implies(self.level != 0, result == rel_module(context.project, self.module_name, context.folder, self.level))"],
+         note="`from .utils import x` names pkg/utils.py even when a top-level utils.py exists")
